@@ -61,8 +61,29 @@ def sites_in(prog, f):
                 continue
             blk = prog.resolve_callable(f, f.module, n.args[0])
             arrays = [n.func.value] + list(n.args[1:])
-        out.append(Site(n.func.attr, n, f, blk, arrays, {k.arg: k.value for k in n.keywords if k.arg}))
+        out.append(Site(n.func.attr, n, f, blk, arrays, _keywords(f, n)))
     return out
+
+
+def _keywords(f, call):
+    """keyword arguments of a call, with `**name` expanded when `name` is a local bound once to dict(k=v, ..) or to a
+    dict literal with constant keys"""
+    kws = {}
+    for k in call.keywords:
+        if k.arg:
+            kws[k.arg] = k.value
+        elif isinstance(k.value, ast.Name):
+            vals = [v for v in f.local_assigns().get(k.value.id, []) if isinstance(v, ast.AST)]
+            d = vals[0] if len(vals) == 1 else None
+            if isinstance(d, ast.Call) and isinstance(d.func, ast.Name) and d.func.id == 'dict' and not d.args:
+                for kk in d.keywords:
+                    if kk.arg:
+                        kws.setdefault(kk.arg, kk.value)
+            elif isinstance(d, ast.Dict):
+                for key, val in zip(d.keys, d.values):
+                    if isinstance(key, ast.Constant) and isinstance(key.value, str):
+                        kws.setdefault(key.value, val)
+    return kws
 
 
 def expanded_sites(prog, f, depth=0):
